@@ -393,19 +393,27 @@ def _probe(case, ds, tf0, model, outc):
     pnames = P.probe_names(mname, has_cat)
     out, base = P.fwd_probes(mname, model, tf, has_cat)
     if mname == "TabNet":
-        # the row counts the inner BatchNorm1d of the first GhostBatchNorm1d is called with (Coq: ghost_call_sizes)
-        try:
-            gbn = model.attn_transformers[0].bn
-            sizes = []
-            h = gbn.bn.register_forward_pre_hook(lambda m_, a: sizes.append(int(a[0].shape[0])))
+        # the row counts the inner BatchNorm1d of the first GhostBatchNorm1d is called with (Coq: ghost_call_sizes),
+        # observed in TRAINING mode on a copy of the model: there the ghost batches are semantics (batch statistics
+        # per piece); in evaluation mode an implementation may legitimately skip the chunking (it is invisible:
+        # theorem ghost_batch_norm_rowwise)
+        o["ghost_sizes"] = None
+        if n >= 2:
             try:
-                P.fwd(model, tf)
-            finally:
-                h.remove()
-            o["ghost_sizes"] = sizes
-            o["ghost_vbs"] = int(gbn.virtual_batch_size)
-        except Exception:
-            o["ghost_sizes"] = None
+                import copy
+                m2 = copy.deepcopy(model)
+                m2.train()
+                gbn = m2.attn_transformers[0].bn
+                sizes = []
+                h = gbn.bn.register_forward_pre_hook(lambda m_, a: sizes.append(int(a[0].shape[0])))
+                try:
+                    P.fwd(m2, tf)
+                finally:
+                    h.remove()
+                o["ghost_sizes"] = sizes
+                o["ghost_vbs"] = int(gbn.virtual_batch_size)
+            except Exception:
+                o["ghost_sizes"] = None
     o["probe_names"] = pnames
     o["probe_K"] = [None if b is None else int(b.shape[1]) for b in base]
     expect = [None if b is None else expected_probe(case, pn, o["col_kinds"], int(b.shape[1]))
